@@ -105,9 +105,91 @@ class Overlay:
     def guards(self, cb, bb):
         return self.D.guards(cb, bb)
 
-    def path_guard_sets(self, cb, bb):
+    # ------------------------------------------------------------ private helpers of the overlay are read as part of the op
+    def is_private_helper(self, c):
+        return c is not None and c.kind != "Closure" and c.vis != "pub" and bool(c.impl) and not c.impl.get("trait") \
+            and c.impl["self_ty"] == self.w.overlay
+
+    def deep_sites(self, b, depth=3, _sub=None, _outer=(), _seen=()):
+        """[(code body, site, tracer, sub, outer)] for the call sites of op `b` *and* of the private overlay helpers it calls
+        (a step of the protocol extracted into `fn clear_marker(&self, path)` is still a step of the op).  `sub` maps a term
+        of the body the site lies in into b's name space (helper parameters replaced by the actual arguments), `outer` are
+        the guards that hold at the chain of helper call sites, already in b's name space"""
+        sub = _sub or (lambda t: t)
+        out = []
+        for cb, s, tr in self.sites(b):
+            out.append((cb, s, tr, sub, tuple(_outer)))
+            h = self.inter.local_callee(s)
+            if depth > 0 and self.is_private_helper(h) and h.id != b.id and h.id not in _seen:
+                actuals = tuple(sub(tr.operand(a)) for a in s.args)
+                ids = self.inter.callee_ids(h)
+                sub2 = (lambda ids_, act_: (lambda t: self.inter.subst(t, ids_, act_)))(ids, actuals)
+                here = tuple((g[0], sub(g[1])) + tuple(g[2:]) for g in self.guards(cb, s.bb))
+                out.extend(self.deep_sites(h, depth - 1, sub2, tuple(_outer) + here, tuple(_seen) + (b.id,)))
+        return out
+
+    def deep_path_sites(self, b, names):
+        """path-method call sites `names` in op b or its private helpers: (cb, site, tracer, receiver in b's name space,
+        guards at the site in b's name space including those of the helper call chain)"""
+        out = []
+        for cb, s, tr, sub, outer in self.deep_sites(b):
+            if sname(s.path) in names and s.self_ty and s.self_ty.endswith("VfsPath") and s.args:
+                gs = [(g[0], sub(g[1])) + tuple(g[2:]) for g in self.guards(cb, s.bb)] + list(outer)
+                out.append((cb, s, tr, sub(tr.operand(s.args[0])), gs))
+        return out
+
+    def entries_of(self, h):
+        """the trait operations of the overlay that reach the private helper `h` through private helpers only"""
+        if not hasattr(self, "_entries"):
+            self._entries = {}
+            for op in self.ops.values():
+                for cb, s, tr, sub, outer in self.deep_sites(op):
+                    c = self.inter.local_callee(s)
+                    if self.is_private_helper(c):
+                        self._entries.setdefault(c.id, [])
+                        if op not in self._entries[c.id]:
+                            self._entries[c.id].append(op)
+        return self._entries.get(h.id, [])
+
+    def _raw_guard_sets(self, cb, bb, depth):
         tr = get_tracer(self.facts, cb)
         sets = tr.path_guard_sets(bb)
+        if sets is None:
+            return None
+        if depth <= 0:
+            return sets
+        out = []
+        for gs in sets:
+            alts_ = [list(gs)]
+            for g in gs:
+                if g[0] != "variant" or g[2] != "ok":
+                    continue
+                c = call_of(strip(g[1]))
+                if c is None:
+                    continue
+                h = self.inter.body_of_call(("call",) + tuple(c))
+                if not self.is_private_helper(h) or h.id == cb.id:
+                    continue
+                # the helper returned Ok: along one of its own successful paths (a disjunction, not the guards common to all)
+                hcb = self.inter.code_body(h)
+                ids = self.inter.callee_ids(h)
+                hsets = []
+                for ct, _, rbb in self.inter.ret_cases(h):
+                    if self.inter.case_polarity(ct) == "err":
+                        continue
+                    ss = self._raw_guard_sets(hcb, rbb, depth - 1)
+                    if ss is None:
+                        return None
+                    hsets.extend([[self.inter.subst_guard(x, ids, c[1]) for x in s_] for s_ in ss])
+                if hsets:
+                    alts_ = [a + h_ for a in alts_ for h_ in hsets]
+                    if len(alts_) > 400:
+                        return None
+            out.extend(alts_)
+        return out
+
+    def path_guard_sets(self, cb, bb):
+        sets = self._raw_guard_sets(cb, bb, 2)
         if sets is None:
             return None
         return [[nguard(g) for g in self.inter.expand_guards(gs)] for gs in sets]
